@@ -305,6 +305,19 @@ pub fn fixed_point(ty: Ty, b: &[u8], tagged: bool) -> Result<Option<Vec<u8>>, (S
         };
         return Err(("value-changed".into(), format!("decode(encode(decode(b))) differs from decode(b): {} (b' = {})", d, hex(&b1))));
     }
+    // "Nothing lost" includes every received protected-header byte string.  Where a type's fields
+    // are private (the KDF context) the crate's own view cannot show them, so the two encodings are
+    // also compared by the independent parser: same protected bytes at every position.
+    {
+        let md = |x: &[u8]| if tagged { model_tagged(ty, x) } else { model::decode_bytes(ty, x) };
+        if let (Verdict::Accept(ma), Verdict::Accept(mb)) = (md(b), md(&b1)) {
+            let (pa, pb) = (model::prot_positions(&ma), model::prot_positions(&mb));
+            if pa != pb {
+                let d = pa.iter().zip(pb.iter()).find(|(x, y)| x != y).map(|(x, y)| format!("{}: received {:?}, re-encoded {:?}", x.0, x.1.as_ref().map(|v| hex(v)), y.1.as_ref().map(|v| hex(v)))).unwrap_or_else(|| "different number of positions".into());
+                return Err(("protected-bytes-changed".into(), format!("the re-encoding carries other protected-header bytes than were received: {} (b' = {})", d, hex(&b1))));
+            }
+        }
+    }
     let b2 = match enc(v1) {
         Ok(x) => x,
         Err(k) => return Err(("second-encode-failed".into(), format!("second encoding failed with {}", k.name()))),
